@@ -33,7 +33,12 @@ def merge_case(scn, tr):
     glist = [{"group": str(g) if g else "", "streams": mids} for g, mids in groups.items()]
     lines = {}
     for m in scn["markets"]:
-        lines[m["id"]] = [{"pt": u["pt"], "status": u.get("status", "OPEN"), "inplay": bool(u.get("inplay", False)), "mtime": MTIME_MS} for u in m["updates"]]
+        lines[m["id"]] = []
+        mt = MTIME_MS
+        for u in m["updates"]:
+            if u.get("market_time_ms") is not None:       # the market is re-timed from this update on
+                mt = u["market_time_ms"]
+            lines[m["id"]].append({"pt": u["pt"], "status": u.get("status", "OPEN"), "inplay": bool(u.get("inplay", False)), "mtime": mt})
     delivered = [[s["a"]["mid"], s["a"]["pt"]] for s in tr["steps"] if s["ev"] == "upd"]
     clocks = [[d[2], d[3]] for d in tr["delivered"]]
     return {"kind": "merge", "id": scn["id"], "groups": glist, "lines": lines,
@@ -67,6 +72,17 @@ def gen_c14(seed, n, tier):
             lk["seconds_to_start"] = rnd.choice([10.0, 50.0, 59.0, 58.5])
         if rnd.random() < 0.25:
             lk["max_inplay_seconds"] = rnd.choice([0, 1, 5, 30])
+        if lk.get("seconds_to_start") and rnd.random() < 0.6:
+            # the start is brought forward / put back while the market trades (a later marketDefinition re-times it)
+            m = rnd.choice(scn["markets"])
+            if len(m["updates"]) > 2:
+                kk = rnd.randrange(1, len(m["updates"]))
+                new_ms = MTIME_MS + rnd.choice([-50000, -30000, -10000, 20000, 100000])
+                import datetime as _dtm
+                iso = (_dtm.datetime.utcfromtimestamp((T0 + new_ms) / 1000.0)).strftime("%Y-%m-%dT%H:%M:%S.") + "%03dZ" % (new_ms % 1000)
+                for u in m["updates"][kk:]:
+                    u["market_time"] = iso
+                m["updates"][kk]["market_time_ms"] = new_ms
         scn["cfg"]["listener_kwargs"] = lk
         if scn["cfg"]["event_processing"] and rnd.random() < 0.3:
             scn["cfg"]["event_groups"] = {"30000001": "G", "30000002": "G"}
@@ -126,6 +142,17 @@ def check_c14(tier, seed):
                               "restored_exc": bool(_dt.datetime is before)})
                 if i == 0:
                     samples.append({"scenario": scn["id"], "orders": len(runs[0]["ledger"]), "ledger_head": runs[0]["ledger"][:2], "hashseeds": [os.environ.get("PYTHONHASHSEED"), 1, 4242], "aborted_run_error": tr2["error"]})
+        # files carrying several markets: every update re-emits the last book of every active market of the file,
+        # each with its own publish time; the clock must follow each book it is processing
+        for i in range(10 if tier == "quick" else 100):
+            g = Gen(seed * 104723 + i, {"n_markets": (2, 3), "n_updates": (3, 8), "p_close": 0.5, "gaps": [1, 500, 1000, 5000, 20000], "event_processing": False, "p_action": 0.0})
+            scn = g.scenario("sf%d" % i)
+            scn["shared_file"] = True
+            for st_ in scn["strategies"]:
+                st_["markets"] = [0]
+            tr = run_scenario(scn, snapshots=False)
+            cases.append({"kind": "clock", "id": scn["id"], "clocks": [[d[2], d[3]] for d in tr["delivered"]], "error": tr["error"],
+                          "markets_seen": sorted(set(d[1] for d in tr["delivered"])), "markets": sorted(m["id"] for m in scn["markets"])})
         samples.append({k: (v if k != "lines" else {m: len(x) for m, x in v.items()}) for k, v in cases[0].items() if k != "clocks"})
         res = validate_cases(cases, ["C14"], wd)
     finally:
@@ -280,6 +307,45 @@ def contain_cases(tier):
 
     cases = []
     k = 0
+    # order-stream handler: process_orders of a strategy raises while the market it concerns has no book yet
+    # (orders adopted from the stream after a restart, before any market data) and in the ordinary case
+    from harness.livedrv import run_live
+    for order_ in (["A", "B"], ["B", "A"]):
+        for victim in order_:
+            for restart in (True, False):
+                for kind in ("orders", "check", "book"):
+                    k += 1
+                    steps = [{"op": "book"},
+                             {"op": "req", "strat": "A", "actions": [{"op": "place", "o": "a1", "t": "ta1", "sel": 11, "side": "BACK", "price": 2.0, "size": 4.0}]},
+                             {"op": "req", "strat": "B", "actions": [{"op": "place", "o": "b1", "t": "tb1", "sel": 12, "side": "BACK", "price": 3.0, "size": 4.0}]},
+                             {"op": "run", "i": 0, "plan": {}}, {"op": "run", "i": 0, "plan": {}}]
+                    if restart:
+                        steps.append({"op": "restart", "twice": False})
+                    n_before = None
+                    if kind == "orders":
+                        steps += [{"op": "fill", "o": "a1", "amount": 1.0}, {"op": "snap"}, {"op": "proc", "raise": [[victim, "orders"]]}, {"op": "snap"}, {"op": "proc"}]
+                        exp_tail = [[n, "orders", "1.1"] for _ in range(2) for n in order_]
+                    else:
+                        steps += [{"op": "book", "raise": [[victim, kind]], "k": 1}, {"op": "book", "k": 2}]
+                        exp_tail = []
+                        for r in (True, False):
+                            for n in order_:
+                                exp_tail.append([n, "check", "1.1"])
+                                if not (r and n == victim and kind == "check"):
+                                    exp_tail.append([n, "book", "1.1"])
+                    tr = run_live({"id": "ctl%d" % k, "strategies": [{"name": n} for n in order_], "seed": 1, "steps": steps})
+                    delivered = [d for d in tr["delivered"]]
+                    tail = delivered[len(delivered) - len(exp_tail):] if len(delivered) >= len(exp_tail) else delivered
+                    def numbered(seq):      # k-th occurrence of a callback: entries become distinct
+                        seen, out_ = {}, []
+                        for x in seq:
+                            key = tuple(x)
+                            seen[key] = seen.get(key, 0) + 1
+                            out_.append(list(x) + [seen[key]])
+                        return out_
+                    exp_tail, tail = numbered(exp_tail), numbered(tail)
+                    cases.append({"kind": "contain", "id": "ctl%d" % k, "expected": exp_tail, "delivered": tail,
+                                  "escaped": [[0, e[2]] for e in tr["errors"] if e and e[0] == "escaped"], "inj": [victim, kind, "restart" if restart else "no restart"], "order": order_})
     orders = [["A", "B"], ["B", "A"]] if tier == "quick" else [["A", "B"], ["B", "A"], ["A", "B", "C"]]
     for order in orders:
         points = [None]
@@ -370,7 +436,7 @@ def check_c13(tier, seed):
     finally:
         shutil.rmtree(wd, ignore_errors=True)
     # the framework's order state stays consistent: the lifecycle / accounting / blotter formulas on the traces
-    res2 = tlc.validate_traces(traces, "SimTrace", ["R", "C03", "C10", "C15"], workers=8, batch=400, timeout=1500)
+    res2 = tlc.validate_traces(traces, "SimTrace", ["R", "C02", "C03", "C10", "C15"], workers=8, batch=400, timeout=1500)
     if res2["errors"]:
         print("MACHINERY-ERROR property=C13 trace validation: %s" % json.dumps(res2["errors"])[:2000])
         return 2
